@@ -233,6 +233,10 @@ func (e *Exec) freshDraw(kind string, n *Term, s Sort) *Term {
 	case s == SF64:
 		e.assertPC(FCmp(OFLe, KF(0, SF64), v))
 		e.assertPC(FCmp(OFLt, v, KF(1, SF64)))
+		if e.unitFloats == nil {
+			e.unitFloats = map[*Term]bool{}
+		}
+		e.unitFloats[v] = true
 	}
 	return v
 }
@@ -494,6 +498,16 @@ func buildHandlers() map[string]handler {
 	h["(*math/rand.Rand).Int31n"] = h["(*math/rand.Rand).Intn"]
 	h["(*math/rand.Rand).Int63"] = func(e *Exec, fn *ssa.Function, a []Value) Value {
 		return e.draw(a[0].(*Cell), "int63", nil, SInt)
+	}
+	h["(*math/rand.Rand).Shuffle"] = func(e *Exec, fn *ssa.Function, a []Value) Value {
+		n := int(e.concretize(a[1].(*Term), 0, 16, "shuffle length"))
+		swap := a[2].(*Closure)
+		// Fisher-Yates with each index an arbitrary draw: every permutation is reachable
+		for i := n - 1; i > 0; i-- {
+			j := e.concretize(e.draw(a[0].(*Cell), "shuffle", K(int64(i+1)), SInt), 0, int64(i), "shuffle index")
+			e.call(swap.fn, []Value{K(int64(i)), K(j)}, swap.free)
+		}
+		return nil
 	}
 	h["(*math/rand.Rand).Float64"] = func(e *Exec, fn *ssa.Function, a []Value) Value {
 		return e.draw(a[0].(*Cell), "float64", nil, SF64)
@@ -896,4 +910,26 @@ func (e *Exec) satT(t *Term) *Term {
 		return t
 	}
 	return Sat64(t)
+}
+
+// unitMul abstracts u*o, u a random draw in [0,1), by a fresh float between 0 and o
+// (sound over-approximation by monotonicity of rounding; the installed solvers do not
+// decide symbolic 53-bit multiplications within the query cap — DESIGN §3.3).
+func (e *Exec) unitMul(x, y *Term) *Term {
+	var o *Term
+	switch {
+	case e.unitFloats[x] && !y.IsConst():
+		o = y
+	case e.unitFloats[y] && !x.IsConst():
+		o = x
+	default:
+		return nil
+	}
+	p := e.freshVar("unitmul", o.Sort)
+	zero := KF(0, o.Sort)
+	pos := And(FCmp(OFLe, zero, o), And(FCmp(OFLe, zero, p), FCmp(OFLe, p, o)))
+	neg := And(FCmp(OFLe, o, zero), And(FCmp(OFLe, o, p), FCmp(OFLe, p, zero)))
+	e.assertPC(Or(Or(pos, neg), FIsNaN(o)))
+	e.sh.addNote("abstraction: random-draw * float replaced by an interval-constrained float")
+	return p
 }
